@@ -293,3 +293,11 @@ def check(repo, ctx, index, purity):
     r24(repo, ctx)
     r25(repo, ctx, index)
     r27(repo, ctx)
+    # R2.8: the record that is appended holds the statistics of the distribution that is stored (C01 R1.5, R1.9)
+    from . import C01
+    sub = type(ctx)(ctx.prop, ctx.repo, ctx.tier, ctx.seed)
+    C01.check(repo, sub, index, purity)
+    for fnd in sub.findings:
+        if fnd.rule in ('R1.5', 'R1.9'):
+            fnd.rule = 'R2.8/' + fnd.rule
+            ctx.findings.append(fnd)
